@@ -20,6 +20,7 @@ import SpgProofs.Lemmas.Rand
 import SpgProofs.Lemmas.CharSets
 import Spg.Model.WordGen
 import Spg.Generated.Classes
+import SpgProofs.Properties.C07
 namespace Spg.C13
 open Spg CharRecipe
 
@@ -196,6 +197,21 @@ theorem acceptable_iff :
       (0 < entropyD cfg r ∧ (total cfg r - entropyD cfg r) ^ cfg.maxTrials * (cfg.frDen : Int) ≤
         (cfg.frNum : Int) * (total cfg r) ^ cfg.maxTrials) := by
   simp [acceptable]
+
+/-- **`SuccessProbability()` is the exact fraction of unconstrained candidates that satisfy the
+requirements**: the pre-flight's `c / M` has `c` = the number of strings over the alphabet that
+pass the filter (C07) and `M` = the number of all strings of that length over the alphabet. -/
+theorem successProb_exact :
+    entropyD cfg r = (((strings (r.alphabet cfg.tbl) r.length.toNat).filter fun s => r.passes cfg.tbl s).length : Int) ∧
+    total cfg r = ((strings (r.alphabet cfg.tbl) r.length.toNat).length : Int) := by
+  refine ⟨C07.entropyD_eq_card cfg r, ?_⟩
+  rw [strings_length]; simp [total, size]
+
+/-- Hence the fraction is at most one: the hypothesis `c ≤ M` of `accept_of_tenth` always holds. -/
+theorem entropyD_le_total : entropyD cfg r ≤ total cfg r := by
+  obtain ⟨h1, h2⟩ := successProb_exact cfg r
+  rw [h1, h2]
+  exact_mod_cast List.length_filter_le _ _
 
 theorem int_pow_le_pow_left {a b : Int} (ha : 0 ≤ a) (hab : a ≤ b) : ∀ (n : Nat), a ^ n ≤ b ^ n
   | 0 => by simp
